@@ -40,7 +40,16 @@ def run(rec, hub, tier, seed, shard, nshards, budget):
     O.register(hub)
     D = mkdims(fd)
 
-    # -- 1. exhaustive pairs ---------------------------------------------------
+    # -- 1. histories (first: they must not be starved by the enumeration when the machine is loaded) ----------------------------------------------------------
+    n_hist, length = (250, 14) if tier == "quick" else (1200, 40)
+    import time as _time
+
+    t_hist_end = _time.monotonic() + 0.6 * BUDGET[tier]
+    for h in range(n_hist):
+        if not budget.ok() or _time.monotonic() > t_hist_end:
+            break
+        run_history(rec, hub, D, seed, shard, nshards, tier, h, length)
+    # -- 2. exhaustive pairs ---------------------------------------------------
     universe = "abcde" if tier == "thorough" else "abcd"
     subs = ordered_subsets(universe)
     pairs = list(itertools.product(subs, subs))
@@ -58,12 +67,6 @@ def run(rec, hub, tier, seed, shard, nshards, budget):
         done += 1
     rec.info("pairs_enumerated", done)
 
-    # -- 2. histories ----------------------------------------------------------
-    n_hist, length = (250, 14) if tier == "quick" else (1200, 40)
-    for h in range(n_hist):
-        if not budget.ok():
-            break
-        run_history(rec, hub, D, seed, shard, nshards, tier, h, length)
     rec.info("histories", n_hist)
 
 
